@@ -54,6 +54,10 @@ def run(ctx, anchors=None):
         raise AnalysisBroken("transaction codec functions not found")
     sp = lambda n: n.get("k") == "ref" and n["n"] == "s" and n.get("dk") == "parm"
     w, r = ws[0], rs[0]
+
+    from . import common as _cm
+    _cm.require_names(w, ["s", "tx", "flags"], "R13.1")
+    _cm.require_names(r, ["s", "tx", "flags"], "R13.1")
     wp = streams.paths(w, w.body, sp)
     rp = streams.paths(r, r.body, sp)
     ctx.site(len(wp) + len(rp))
@@ -152,6 +156,7 @@ def run(ctx, anchors=None):
     coin = fb.var("COIN")
     ctx.inst(coin.get("value") == 100000000, "R13.4", "COIN", "%s:%d" % (coin["file"], coin["line"]), "COIN == 100000000")
     pt = fb.fn("Instance::parse_transaction")
+    _cm.require_names(pt, ["p", "c"], "R13.4")
     pf = [n for n in pt.nodes() if n["k"] == "call" and n.get("n") == "ParseFixedPoint"]
     ctx.inst(len(pf) == 1 and astq.const_value(pf[0]["args"][1]) == 8, "R13.4", "eight-decimals", pt.loc(pf[0]) if pf else pt.loc(), "amounts are parsed with 8 decimals")
     if pf:
